@@ -199,7 +199,7 @@ def fault_space(max_index, kinds=("drop", "dup", "delay")):
 def c03_cases(tier, rng):
     """K <= 1 complete + sampled K = 2 in quick; K <= 2 complete on small files in thorough; random K <= 6 beyond."""
     base = []
-    for size, seg in ((0, 4), (5, 4), (9, 4)):
+    for size, seg in ((0, 4), (3, 4), (5, 4), (9, 4)):
         for imm in (False, True):
             for closure in (False, True):
                 base.append((size, seg, imm, closure))
@@ -213,7 +213,12 @@ def c03_cases(tier, rng):
             yield SysCase(mk(1), data, [f], tag="c03")
         pairs = list(itertools.combinations(space, 2))
         if tier == "quick":
-            pairs = rng.sample(pairs, min(len(pairs), 40))
+            # all pairs of early losses sender->receiver (Metadata / File Data / EOF), early loss x early receiver->sender
+            # fault, plus a random sample of the rest
+            early = [f for f in space if f.direction == "s2d" and f.index < 5 and f.kind == "drop"]
+            back = [f for f in space if f.direction == "d2s" and f.index < 3]
+            pairs = list(itertools.combinations(early, 2)) + [(a, b) for a in early[:3] for b in back] + \
+                rng.sample(pairs, min(len(pairs), 30))
         elif len(pairs) > 1500:
             pairs = rng.sample(pairs, 1500) if size else pairs
         for f1, f2 in pairs:
